@@ -57,14 +57,16 @@ MarkerClauses(c) ==
                        \o (IF c.op \in {"cyclepoints_df", "cyclepoints_array"}      \* completeness is stated for the cyclepoint plots only
                            THEN Fail({ x \in Required(c.t, kind, c.peakC) : StrictlyInside(x, c.n, c.a, c.b) } \subseteq ToSet(c.markers[kind].samples), "C20.cyclepoint_inside_view_not_drawn." \o kind)
                            ELSE <<>>)
-                       \o Fail(\A k \in 1 .. Len(c.markers[kind].samples) : c.markers[kind].y[k] = c.sig[c.markers[kind].samples[k] + 1], "C20.marker_y_is_not_the_plotted_signal." \o kind)
+                       \o Fail(/\ Len(c.markers[kind].y) = Len(c.markers[kind].samples)
+                             /\ \A k \in 1 .. Len(c.markers[kind].samples) : c.markers[kind].samples[k] \in 0 .. (Len(c.sig) - 1)
+                                                                           /\ c.markers[kind].y[k] = c.sig[c.markers[kind].samples[k] + 1], "C20.marker_y_is_not_the_plotted_signal." \o kind)
                      ELSE Fail(c.markers[kind].samples = <<>>, "C20.marker_kind_switched_off_but_drawn." \o kind)),
            <<>>, Kinds)
 PlotClauses(c) ==
   IF c.raised # "" THEN <<"C20.raised." \o c.op>>
   ELSE MarkerClauses(c)
     \o (IF c.has_burst THEN Fail(HighlightOK(ToSet(c.H), c.t, c.n, c.a, c.b), "C20.burst_highlight")
-                          \o Fail(\A k \in 1 .. Len(c.H) : c.Hy[k] = c.sig[c.H[k] + 1], "C20.highlighted_trace_is_not_the_plotted_signal")
+                          \o Fail(Len(c.Hy) = Len(c.H) /\ \A k \in 1 .. Len(c.H) : c.H[k] \in 0 .. (Len(c.sig) - 1) /\ c.Hy[k] = c.sig[c.H[k] + 1], "C20.highlighted_trace_is_not_the_plotted_signal")
         ELSE <<>>)
     \o FoldLeft(LAMBDA acc, p : acc \o Fail(PanelOK(c.panels[p].verts, c.interp, c.t, c.panels[p].col, c.n, c.a, c.b), "C20.parameter_panel_values")
                                      \o Fail(c.panels[p].thr_line = c.panels[p].thr, "C20.threshold_line"),
